@@ -54,4 +54,14 @@ def obligations(tier, seed=0):
     for bc in (5, 53, 60, 70, 120):
         for rs in (0, 1):
             add('to_complex', bc=bc, rsign=rs, isign=1 - rs)
+    # components are converted independently: exact zeros, inf/nan, and values around the overflow threshold in either slot
+    kinds = ('fin', 'zero', 'inf', 'ninf', 'nan', 'huge')
+    for rk in kinds:
+        for ik in kinds:
+            if (rk, ik) == ('fin', 'fin'):
+                continue
+            for sg in (0, 1):
+                if sg and rk != 'huge' and ik != 'huge' and rk != 'fin' and ik != 'fin':
+                    continue
+                add('to_complex', bc=60, rkind=rk, ikind=ik, rsign=sg, isign=sg)
     return obs
